@@ -87,6 +87,18 @@ template <class A> static Verdict run(const std::vector<Op> &ops, int fault, int
     VF_REQUIRE(textAfter == textBefore, "%s: make-owner changed the text from '%s' to '%s'", A::name(), esc(textBefore).c_str(), esc(textAfter).c_str());
     VF_REQUIRE(before.sameAs(after), "%s: make-owner changed components: %s -> %s", A::name(), before.describe().c_str(), after.describe().c_str());
   }
+  // "overwriting the original string changes neither its components nor its recomposed text": the first way to overwrite it
+  // is to write the recomposed text over it (the URI no longer needs its source, so the caller reuses the buffer)
+  for (int k = 0; k < w.size(); k++) {
+    typename World<A>::Obj &o = w.at(k);
+    if (!o.buf || o.buflen < textAfter.size() + 1) continue;
+    int cw = -7;
+    int rc = A::ToString(o.buf.get(), &U.uri, (int)o.buflen, &cw);
+    VF_REQUIRE(rc == 0 && cw == (int)textAfter.size() + 1, "%s: writing the owned URI's text over one of the original strings (%zu characters) failed: rc=%d charsWritten=%d", A::name(), o.buflen, rc, cw);
+    VF_REQUIRE(narrow<typename A::Ch>(o.buf.get(), o.buf.get() + textAfter.size()) == textAfter, "%s: written over one of the original strings the text is not '%s'", A::name(), esc(textAfter).c_str());
+    stats().hit("recomposed_over_an_original_string");
+    break;
+  }
   // now take everything else away
   w.release_others(u);
   w.scribble_sources();
